@@ -158,6 +158,11 @@ fn build(seed: u64) -> Layout {
     // main program
     let mut main = String::from("int[32] before = 1;\n");
     if r.chance(1, 2) {
+        // now and then a user gate named like a library gate (same arity) in front of the library: one
+        // redeclaration, every other library gate is still provided
+        if r.chance(1, 3) {
+            main.push_str(*r.pick(&["gate cswap ua, ub, uc { }\n", "gate x ua { }\n", "gate cx ua, ub { }\n", "gate ccx ua, ub, uc { }\n", "gate id ua { }\n"]));
+        }
         main.push_str("include \"stdgates.inc\";\nqubit q;\nh q;\n");
     }
     main.push_str("before = v_f0_d0;\n"); // use before the include: unresolved
